@@ -182,7 +182,7 @@ class NullCtx:
 def rich_hypergraph(rng, need_edges=True):
     """weighted or not, with metadata on nodes and hyperedges, built through the API"""
     cfg = history.Cfg(rng, "H", uni=rng.choice(["small", "gaps", "str", "bigneg", "float", "intfloat"]))
-    cfg.invalid_rate = 0
+    cfg.invalid_rate = 0.1  # refused calls are part of the build: they must leave no trace in what is measured
     cfg.avoid = {"copy", "clear", "remove_node", "remove_nodes"}
     cfg.n_ops = rng.randint(6, 25)
     live, _ = history.run_history(NullCtx(), rng, cfg, battery_every=0)
